@@ -55,6 +55,11 @@ const PLACEMENTS = {
   const_init: P(['const n1 = ', 0, ';'], [{ ident: 'n1' }]),
   let_init: P(['let n2 = ', 0, ';'], [{ ident: 'n2' }]),
   var_two: P(['var n3 = ', 0, ', n4 = ', 1, ';'], [{ ident: 'n3' }, { ident: 'n4' }]),
+  let_after_uninitialised: P(['let u1, n11 = ', 0, ';'], [{ ident: 'n11' }]),
+  var_mixed_uninitialised: P(['var u2, n12 = ', 0, ', u3, n13 = ', 1, ', u4;'], [{ ident: 'n12' }, { ident: 'n13' }]),
+  for_of_pattern_default: P(['for (const { n14 = ', 0, ' } of [o]) x = n14;']),
+  for_in_head: P(['for (var n15 in { k9: ', 0, ' }) x = n15;'], [{ ident: 'k9' }]),
+  for_init_two: P(['for (let u5, n16 = ', 0, '; c; c = false) x = n16;'], [{ ident: 'n16' }]),
   let_conditional: P(["let n5 = c ? ", 0, " : '';"]),
   destructuring_default: P(['const { n6 = ', 0, ' } = o;']),
   assign_plain: P(['x = ', 0, ';']),
@@ -118,6 +123,7 @@ const WRAPS = {
   regexp_call: { parts: ['RegExp(', H, ')'] },
   arrow_call: { parts: ['(() => (', H, '))()'] },
   arrow_block: { parts: ['(() => { const n9 = ', H, '; return n9 })()'], hole: { ident: 'n9' } },
+  arrow_block_after_uninit: { parts: ['(() => { let u9, n17 = ', H, '; return n17 })()'], hole: { ident: 'n17' } },
   member: { parts: ['o[', H, ']'] },
   optmember: { parts: ['s?.[', H, ']'] },
   optcall_arg: { parts: ['s?.concat(', H, ')'] },
